@@ -359,10 +359,10 @@ fn run_body(n: usize, d: usize, klen: usize, start_kind: u8, undef: u8, pre_err:
     vassert!("C08.run.log_complete", !io::log_overflow());
     let runs = start_kind == 1 && !never_defined && n > 0 && !pre_err;
     vcover!("C20.run.cover.prompt_by_trap_flag_only", stepped_tf_only || !runs || klen < 2);
-    vcover!("C20.run.cover.int3", saw_int3 || !runs);
-    vcover!("C08.run.cover.backward_jump", saw_back_jump || !runs);
-    vcover!("C18.run.cover.unsupported_ah", saw_bad_ah || !runs);
-    vcover!("C07.run.cover.repeat", saw_repeat || !runs);
+    vcover!("C20.run.cover.int3", saw_int3 || !runs || klen == 0);
+    vcover!("C08.run.cover.backward_jump", saw_back_jump || !runs || klen == 0);
+    vcover!("C18.run.cover.unsupported_ah", saw_bad_ah || !runs || klen == 0);
+    vcover!("C07.run.cover.repeat", saw_repeat || !runs || klen == 0);
     vcover!("C08.run.cover.ran_to_script_end", executed == klen + 1 || !runs);
     vcover!("C08.run.cover.empty_program", n != 0 || start_kind != 1 || pre_err || executed == 1);
 }
@@ -380,6 +380,9 @@ macro_rules! run_harness {
 // (instructions, data lines, executed instructions, start: 0 absent / 1 code / 2 data,
 //  forward references: 0 none / 1 undefined / 2 defined / 3, 4 two of which the first / second is undefined, assembler error)
 run_harness!(c15_run_empty_program, 0, 0, 1, 1, 0, false, 12);
+// the first instruction only (the interpreter stub halts at once): where execution begins, the prompt before it
+run_harness!(c16_run_first_instruction_n1, 1, 0, 0, 1, 0, false, 12);
+run_harness!(c16_run_first_instruction_n2, 2, 0, 0, 1, 0, false, 12);
 run_harness!(c14_run_start_absent, 1, 0, 1, 0, 0, false, 12);
 run_harness!(c14_run_start_is_data, 1, 0, 1, 2, 0, false, 12);
 run_harness!(c14_run_undefined_label, 1, 0, 1, 1, 1, false, 12);
@@ -402,6 +405,8 @@ pub fn c14_twin_run_reach() {
 
 pub const TABLE: &[(&str, fn())] = &[
     ("c15_run_empty_program", c15_run_empty_program),
+    ("c16_run_first_instruction_n1", c16_run_first_instruction_n1),
+    ("c16_run_first_instruction_n2", c16_run_first_instruction_n2),
     ("c14_run_start_absent", c14_run_start_absent),
     ("c14_run_start_is_data", c14_run_start_is_data),
     ("c14_run_undefined_label", c14_run_undefined_label),
